@@ -345,13 +345,19 @@ class CFG(object):
                 for t in nd.ast.targets:
                     if isinstance(t, ast.Name) and t.id in flags:
                         v = nd.ast.value
-                        if isinstance(v, ast.Constant) and isinstance(v.value, bool):
+                        if isinstance(v, ast.Constant) and (isinstance(v.value, bool) or v.value is None):
                             kd[t.id] = v.value
                         else:
                             kd.pop(t.id, None)
             only = None
             if nd.kind == "test" and isinstance(nd.ast, ast.Name) and nd.ast.id in kd:
                 only = "T" if kd[nd.ast.id] else "F"
+            elif nd.kind == "test" and kd:
+                from . import q as _q
+                k_, s_, pos_ = _q.atom_test(nd.ast)
+                if s_ in kd and k_ in ("truth", "isnone"):
+                    val = bool(kd[s_]) if k_ == "truth" else (kd[s_] is None)
+                    only = "T" if val == pos_ else "F"
             nk = tuple(sorted(kd.items()))
             for e in self.succ[u]:
                 if not self.edge_ok(e, mode):
